@@ -90,3 +90,10 @@ package types
 //@ axiom coinsListD(c, d)
 //@   ensures amt(c, d) > 0 ==> 0 <= cidx(c, d) && cidx(c, d) < len(c) && coinat(c, cidx(c, d)).Denom == d
 //@   ensures amt(c, d) >= 0
+
+// Genesis validation (assumed contract: a pure check of the genesis message)
+//@ func ValidateGenesis
+//@   property C12, C13
+//@   trusted
+//@   returns err
+//@ end
